@@ -3,14 +3,15 @@
 
 def setup(register, COMMON_TB):
     register(
-        "C06", coq="C06", pkg="./internal/mode/static/state/graph/", test="TestVerifC06", coq_extra=["k8s", "ngx", "gen", "C04", "C17", "C01"],
-        extra=[{"pkg": "./internal/mode/static/", "test": "TestVerifC06Revoke"}],
+        "C06", coq="C06", pkg="./internal/mode/static/state/graph/", test="TestVerifC06", coq_extra=["k8s", "ngx", "gen", "C04", "C17", "C01", "C02"],
+        extra=[{"pkg": "./internal/mode/static/", "test": "TestVerifC06Revoke"},
+               {"pkg": "./internal/mode/static/", "test": "TestVerifC06Pipe"}],
         rule="histories of ReferenceGrant store operations (upsert / update / delete) over generated worlds (one Gateway with "
              "HTTP, TLS and HTTPS listeners with certificateRefs; HTTPRoutes, GRPCRoutes, TLSRoutes with backendRefs; Services; "
              "Secrets), the real BuildGraph re-run on the same ClusterState after every operation; a systematic part "
              "(referrer kind x single-field near miss [all 2^7 masks in thorough] x named/unnamed grant x split grants) and a "
              "generated part (sizes ramp with the index, every third case hostile); non-trivial = the world has at least one "
-             "cross-namespace reference and the store is non-empty after some operation; distinct = distinct (world, history, observation)",
+             "cross-namespace reference and the store is non-empty after some operation; distinct = distinct (world, history, observation). Third part (TestVerifC06Pipe, evaluated by C02.Check): generated states with cross-namespace backendRefs under grants of which about half are removed or narrowed (referrer namespace, referrer kind, Service name), through the real pipeline, 40/100 requests aimed at the rules: a backend whose reference is not permitted keeps its share and that share is answered by invalid-backend-ref (500)",
         trusted_base=COMMON_TB + [
             "graph-level observation only: BackendRef.Valid=false is what the data plane answers with 500, Listener.Valid=false / "
             "ResolvedSecret=nil is what yields no server block and no key-pair file (generated files are covered by the pipeline harness)",
